@@ -21,7 +21,7 @@ RULE = (
     "Dec values {+-pi/2,+-(pi/2-ulp),+-(pi/2-1e-9),+-1e-9,+-1e-16,0,2 generic}: all points, all ordered "
     "pairs; generic lattice 128x64 (irrational offsets, low digits moved by VERIF_SEED) with exact antipode "
     "and near-antipodes at 1e-12,1e-9,1e-6; distance alphabet incl. 0, denormal, pi-ulp, pi; all point "
-    "sets of size 1-3 of a 15-point alphabet (3 points with RA outside [0,2pi)), weighted/unweighted; means of 2^20-1 and 2^20+3 (| 2^21+5, 3*2^20+1) points in two uneven clusters; round trips of sets of exactly 1..5 points; histories {to_3d, distance, mean} -> in-place edit through {adopted buffer, .data, sliced views} -> {to_3d, distance, mean} equal to a fresh object of the current values. Bounds: |distance error| <= min(1e-7, "
+    "sets of size 1-3 of a 15-point alphabet (3 points with RA outside [0,2pi)), weighted/unweighted (weights also scaled by 1e-170 and 1e160); means of 2^20-1 and 2^20+3 (| 2^21+5, 3*2^20+1) points in two uneven clusters; round trips of sets of exactly 1..5 points; histories {to_3d, distance, mean} -> in-place edit through {adopted buffer, .data, sliced views} -> {to_3d, distance, mean} equal to a fresh object of the current values. Bounds: |distance error| <= min(1e-7, "
     "1e-15*(1+2/(pi-theta))) (conditioning of the chord formula), never raises; round trips within 1e-7 (1e-12 away from RA=0/pi singular "
     "conditioning), RA in [0,2pi); unit norm 4e-16; conversions monotone. Non-trivial: a pair/point "
     "involving a special value or an antipode. One case = one block of pairs (vectorised)."
